@@ -582,9 +582,16 @@ class SpaceEncoder(BaseEncoder):
 
         datafile = self.datapath / "_dynamic_inputs"
 
-        if self.space._named_itemspaces:
+        # Input values in derived cells are saved in the same way
+        # as those in dynamic spaces.
+        derived = [c for c in self.space.cells.values()
+                   if not c._is_defined() and c._impl.input_keys]
+
+        if self.space._named_itemspaces or derived:
 
             def callback(f):
+                for c in derived:
+                    self._pickle_cells_inputs(f, c, self.space)
                 for s in self.space._named_itemspaces.values():
                     self._pickle_dynamic_space(f, s, self.space)
 
@@ -592,28 +599,32 @@ class SpaceEncoder(BaseEncoder):
                                     compression=self.writer.compression,
                                     compresslevel=self.writer.compresslevel)
 
+    def _pickle_cells_inputs(self, file, cells, static_parent):
+
+        for key in cells._impl.input_keys:
+            value = cells._impl.data[key]
+            keyid = id(key)
+            if keyid not in self.writer.pickledata:
+                self.writer.pickledata[keyid] = key
+            valid = id(value)
+            if valid not in self.writer.pickledata:
+                self.writer.pickledata[valid] = value
+
+            idtuple = TupleID(abs_to_rel_tuple(
+                cells._idtuple, static_parent._idtuple))
+            idtuple.pickle_args(self.writer.pickledata)
+            file.write(
+                "(%s, %s, %s)\n" % (idtuple.serialize(), keyid, valid)
+            )
+
+            if self.writer.log_input:
+                self.writer.input_log.append(
+                    output_input(cells, key))
+
     def _pickle_dynamic_space(self, file, space, static_parent):
 
         for cells in space.cells.values():
-            for key in cells._impl.input_keys:
-                value = cells._impl.data[key]
-                keyid = id(key)
-                if keyid not in self.writer.pickledata:
-                    self.writer.pickledata[keyid] = key
-                valid = id(value)
-                if valid not in self.writer.pickledata:
-                    self.writer.pickledata[valid] = value
-
-                idtuple = TupleID(abs_to_rel_tuple(
-                    cells._idtuple, static_parent._idtuple))
-                idtuple.pickle_args(self.writer.pickledata)
-                file.write(
-                    "(%s, %s, %s)\n" % (idtuple.serialize(), keyid, valid)
-                )
-
-                if self.writer.log_input:
-                    self.writer.input_log.append(
-                        output_input(cells, key))
+            self._pickle_cells_inputs(file, cells, static_parent)
 
         for subspace in space.named_spaces.values():
             self._pickle_dynamic_space(file, subspace, static_parent)
